@@ -56,6 +56,12 @@ func newDisjunctionSearcher(indexReader search.Reader,
 		rv, err := optimizeCompositeSearcher("disjunction:unadorned",
 			indexReader, qsearchers, options)
 		if err != nil || rv != nil {
+			if rv != nil && min > 0 {
+				// the boolean searcher asks its should-searcher for Min() to tell
+				// a required disjunction from an optional one; the optimized
+				// searcher would answer 0 and silently make it optional
+				rv = &searcherWithMin{Searcher: rv, min: min}
+			}
 			return rv, err
 		}
 	}
@@ -69,6 +75,17 @@ func newDisjunctionSearcher(indexReader search.Reader,
 }
 
 const optionScoringNone = "none"
+
+// searcherWithMin reports the minimum number of clauses of the disjunction
+// that an optimized searcher stands for
+type searcherWithMin struct {
+	search.Searcher
+	min int
+}
+
+func (s *searcherWithMin) Min() int {
+	return s.min
+}
 
 func optimizeCompositeSearcher(optimizationKind string,
 	indexReader search.Reader, qsearchers []search.Searcher,
